@@ -32,8 +32,9 @@ type c11Case struct {
 	initial  time.Duration
 	mult     float64
 	t5       time.Duration
-	atFirst  bool // the fault hits the very first generation (otherwise a second one)
-	cold     int  // active only: the first `cold` dials of the very first Open are refused (cold peer)
+	atFirst  bool          // the fault hits the very first generation (otherwise a second one)
+	cold     int           // active only: the first `cold` dials of the very first Open are refused (cold peer)
+	newT5    time.Duration // != 0: T5 is changed at runtime (UpdateConfigOptions) in the middle of the second backoff sleep of the recovery
 }
 
 const (
@@ -114,25 +115,27 @@ func runC11(rt interface {
 		rt.Fatalf("VERIF-INFRA: open: %v", err)
 	}
 	// checkGaps compares the instants of consecutive attempts with the reference backoff sequence
-	checkGaps := func(what string, prev time.Time, tries []time.Time) {
+	checkGaps := func(what string, prev time.Time, tries []time.Time, t5For func(iter int) time.Duration) {
 		delay := c.initial
 		prevGap := time.Duration(0)
 		for i, at := range tries {
-			want := min(delay, c.t5)
+			t5 := t5For(i) // the configuration is read at the top of every iteration, before its sleep
+			want := min(delay, t5)
 			gap := at.Sub(prev)
 			if gap != want {
-				fail("%s: attempt %d came %v after the previous failure, the backoff prescribes %v (initial %v x%v, T5 %v)", what, i, gap, want, c.initial, c.mult, c.t5)
+				fail("%s: attempt %d came %v after the previous failure, the backoff prescribes %v (initial %v x%v, T5 %v in force for this attempt)", what, i, gap, want, c.initial, c.mult, t5)
 			}
-			if gap < prevGap || gap > c.t5 || gap <= 0 {
-				fail("%s: backoff gap %v after %v: must be positive, non-decreasing and <= T5 %v", what, gap, prevGap, c.t5)
+			if (gap < prevGap && t5For(i) >= t5For(max(i-1, 0))) || gap > t5 || gap <= 0 {
+				fail("%s: backoff gap %v after %v: must be positive, non-decreasing (unless T5 was lowered) and <= T5 %v", what, gap, prevGap, t5)
 			}
 			prevGap = gap
 			prev = at
-			delay, _ = fsm.Backoff(delay, c.mult, c.t5)
+			delay, _ = fsm.Backoff(delay, c.mult, t5)
 		}
 	}
+	fixedT5 := func(int) time.Duration { return c.t5 }
 	up := func() *netsim.Peer {
-		p, err := w.peerUp(10 * time.Second)
+		p, err := w.peerUp(60 * time.Second)
 		if err != nil {
 			fail("the link was not re-established: %v", err)
 		}
@@ -157,7 +160,7 @@ func runC11(rt interface {
 		if len(dials) != c.cold+1 {
 			fail("cold start: %d dials for %d refusals + 1 success", len(dials), c.cold)
 		}
-		checkGaps("cold start", dials[0], dials[1:])
+		checkGaps("cold start", dials[0], dials[1:], fixedT5)
 		if n := w.conn.Metrics().Reconnects(); n != 0 {
 			fail("Reconnects()=%d after the very first connect (%d cold retries): the first Open is never a reconnect", n, c.cold)
 		}
@@ -271,6 +274,27 @@ func runC11(rt interface {
 		}
 		classes = append(classes, "c11:redundant-open")
 	}
+	// runtime reconfiguration in the middle of the outage: T5 is changed while the reconnect loop is
+	// in its SECOND backoff sleep; the sleep in progress keeps its length, every later one is capped
+	// by the new T5
+	t5For := fixedT5
+	if c.newT5 != 0 {
+		g0 := min(c.initial, c.t5)
+		d1, _ := fsm.Backoff(c.initial, c.mult, c.t5)
+		g1 := min(d1, c.t5)
+		time.Sleep(time.Until(endAt.Add(g0 + g1/2)))
+		if err := w.conn.UpdateConfigOptions(hsms.WithT5(c.newT5)); err != nil {
+			fail("UpdateConfigOptions(WithT5(%v)) in the middle of an outage: %v", c.newT5, err)
+		}
+		logf("T5 changed to %v at runtime", c.newT5)
+		t5For = func(i int) time.Duration {
+			if i >= 2 {
+				return c.newT5
+			}
+			return c.t5
+		}
+		classes = append(classes, "c11:t5-changed-at-runtime")
+	}
 	// recovery (first let the dying generation finish its teardown: a dial that races it is accepted
 	// by the old generation's refuse loop and closed at once, exactly as on a real network)
 	synctest.Wait()
@@ -302,7 +326,7 @@ func runC11(rt interface {
 	if len(tries) != c.refusals+1 {
 		fail("%d reconnect attempts after the fault, expected %d refused + 1 successful", len(tries), c.refusals)
 	}
-	checkGaps("recovery", endAt, tries)
+	checkGaps("recovery", endAt, tries, t5For)
 	if c.active {
 		if d := w.conn.Metrics().Reconnects() - reconnectsBefore; d != 1 {
 			fail("Reconnects() grew by %d over one successful re-dial", d)
@@ -314,7 +338,7 @@ func runC11(rt interface {
 		fail("Close: %v", err)
 	}
 	n := len(w.nw.Events())
-	time.Sleep(3 * c.t5)
+	time.Sleep(3 * max(c.t5, c.newT5))
 	if evs := w.nw.Events(); len(evs) != n {
 		fail("a %s happened after Close", evs[n].Kind)
 	}
@@ -328,7 +352,7 @@ func runC11(rt interface {
 func rapid0(x int64) int64 { return x }
 
 func TestC11Recovery(t *testing.T) {
-	ev.Rule("(role, fault, refusals 0..8, backoff initial/multiplier/T5, faulted generation first or second): fault = reset after the peer wrote / read a drawn number of bytes of the connect-select-data-linktest exchange, peer close, unanswered select (T6), silent peer (T7), partial frame (T8), closed window (write timeout), dead linktest, Select.rsp status 2..255; then k refused dials / failed listens; active: 0-4 refused dials before the very first connection (cold start: same backoff schedule, Reconnects() stays 0); oracle: every gap between attempts equals the ref/fsm.Backoff sequence exactly (virtual time), positive, non-decreasing, <= T5; the link is re-established, re-selected, a reply-expected round trip and a linktest work; Reconnects() +1 per successful re-dial (active); nothing is dialled or listened after Close; non-trivial = the fault lands after the first byte of an exchange, or k >= 2")
+	ev.Rule("(role, fault, refusals 0..8, backoff initial/multiplier/T5, faulted generation first or second): fault = reset after the peer wrote / read a drawn number of bytes of the connect-select-data-linktest exchange, peer close, unanswered select (T6), silent peer (T7), partial frame (T8), closed window (write timeout), dead linktest, Select.rsp status 2..255; then k refused dials / failed listens; optionally T5 changed at runtime (UpdateConfigOptions) in the middle of the second backoff sleep: later sleeps are capped by the new value; active: 0-4 refused dials before the very first connection (cold start: same backoff schedule, Reconnects() stays 0); oracle: every gap between attempts equals the ref/fsm.Backoff sequence exactly (virtual time), positive, non-decreasing, <= T5; the link is re-established, re-selected, a reply-expected round trip and a linktest work; Reconnects() +1 per successful re-dial (active); nothing is dialled or listened after Close; non-trivial = the fault lands after the first byte of an exchange, or k >= 2")
 	vt.Bubble(t, func(t *testing.T) {
 		vt.CheckBubble(t, 4000, 200000, func(rt *rapid.T) {
 			c := c11Case{active: rapid.Bool().Draw(rt, "active")}
@@ -348,6 +372,9 @@ func TestC11Recovery(t *testing.T) {
 			c.atFirst = rapid.Bool().Draw(rt, "atFirst")
 			if c.active {
 				c.cold = rapid.SampledFrom([]int{0, 0, 1, 2, 4}).Draw(rt, "cold")
+			}
+			if c.refusals >= 2 && c.fault != "write-timeout" && c.offset%3 != 0 && rapid.Bool().Draw(rt, "retune") {
+				c.newT5 = time.Duration(rapid.SampledFrom([]int{10, 30, 80, 400, 3000}).Draw(rt, "newT5Ms")) * time.Millisecond
 			}
 			cls, hist := runC11(rt, c)
 			ev.Case(c.offset > 0 || c.refusals >= 2, fmt.Sprintf("%+v", c), func() any { return map[string]any{"case": fmt.Sprintf("%+v", c), "history": hist} }, cls...)
